@@ -325,6 +325,25 @@ func (t *TypeGenerator) Disjoint() []*TypeGenerator {
 	return t.disjoint
 }
 
+// AddDisjoint records that this type and the other type are disjoint, in
+// both directions, unless that is already known.
+func (t *TypeGenerator) AddDisjoint(other *TypeGenerator) {
+	has := func(l []*TypeGenerator, x *TypeGenerator) bool {
+		for _, e := range l {
+			if e == x {
+				return true
+			}
+		}
+		return false
+	}
+	if !has(t.disjoint, other) {
+		t.disjoint = append(t.disjoint, other)
+	}
+	if !has(other.disjoint, t) {
+		other.disjoint = append(other.disjoint, t)
+	}
+}
+
 // Properties returns the Properties of this type, mapped by their property
 // name.
 func (t *TypeGenerator) Properties() map[string]Property {
